@@ -17,26 +17,10 @@ mod mworld;
 
 use std::path::PathBuf;
 
+use simcore::cli::*;
 use simcore::common::*;
 use simcore::rng;
 use serde_json::json;
-
-fn verif_dir() -> PathBuf {
-    PathBuf::from(std::env::var("VERIF_DIR").unwrap_or_else(|_| "/verif".into()))
-}
-
-fn arg_val(args: &[String], name: &str) -> Option<String> {
-    args.iter()
-        .position(|a| a == name)
-        .and_then(|i| args.get(i + 1).cloned())
-}
-
-struct PropMeta {
-    level: &'static str,
-    quick_secs: f64,
-    thorough_secs: f64,
-    rule: &'static str,
-}
 
 fn meta(id: &str) -> PropMeta {
     let rule_common = "each evaluation = one seeded scenario (pool config, 1..N actor scripts, per-call outcome tables, enabled schedule points, strategy) run under one seeded schedule with every step checked; distinct = distinct hash of the per-run sequence (actor, stop site / pending / boundary, env decision); non-trivial = two operations of different actors overlapped with at least one context switch, or at least one injected fault fired inside an operation";
@@ -114,103 +98,6 @@ fn check(id: &str, args: &[String]) -> i32 {
     }
 }
 
-#[allow(clippy::too_many_arguments)]
-fn finish<H: Harness>(
-    h: &H,
-    id: &str,
-    tier: &str,
-    seed: u64,
-    m: &PropMeta,
-    r: BatchResult<H::Sc>,
-    rvs: serde_json::Value,
-    assumptions: Vec<String>,
-) -> i32 {
-    let vd = verif_dir();
-    if let Some(e) = &r.harness_error {
-        eprintln!("harness error: {e}");
-        return 2;
-    }
-    let (hits, yields) = engine::site_counters();
-    let _ = (hits, yields); // per-thread counters live in the workers; totals are in probes
-    let mut code = 0;
-    let mut violations = 0;
-    let mut replay_path = None;
-    if let Some(f) = &r.found {
-        violations = 1;
-        match write_replay(h, &vd.join("replays"), f, seed) {
-            Ok(p) => {
-                // replay in this process once more from the file to prove exact reproduction
-                let txt = std::fs::read_to_string(&p).unwrap();
-                let rf: ReplayFile<H::Sc> = serde_json::from_str(&txt).unwrap();
-                match replay_file(h, &rf, true) {
-                    ReplayVerdict::Reproduced(v, trace) => {
-                        let tp = p.with_extension("trace.txt");
-                        let mut body = format!(
-                            "VIOLATION {} clause {}\n{}\nshape: {}\n\n",
-                            v.property, v.clause, v.detail, rf.shape
-                        );
-                        body.push_str(&trace.join("\n"));
-                        let _ = std::fs::write(&tp, body);
-                        println!("violation: {} [{}] {}", v.property, v.clause, v.detail);
-                        println!("minimised scenario shape: {}", rf.shape);
-                        println!("trace: {}", tp.display());
-                        println!("VIOLATION property={} replay={}", v.property, p.display());
-                        replay_path = Some(p);
-                        code = 1;
-                    }
-                    ReplayVerdict::NoViolation(_) => {
-                        eprintln!("harness error: replay file did not reproduce the violation");
-                        return 2;
-                    }
-                    ReplayVerdict::Nondeterministic(e) => {
-                        eprintln!("harness error: nondeterministic replay: {e}");
-                        return 2;
-                    }
-                }
-            }
-            Err(e) => {
-                eprintln!("harness error: {e}");
-                return 2;
-            }
-        }
-    }
-    for (p, what) in &r.known_hits {
-        println!("KNOWN-FINDING: property={} {}", p, what);
-    }
-    let extra = json!({
-        "known_findings_hit": r.known_hits.iter().map(|(p, w)| format!("{p}: {w}")).collect::<Vec<_>>(),
-        "replay": replay_path.as_ref().map(|p| p.display().to_string()),
-        "workers": std::thread::available_parallelism().map(|n| n.get()).unwrap_or(0),
-    });
-    write_evidence(
-        &vd.join("evidence").join(format!("{id}.json")),
-        id,
-        tier,
-        seed,
-        m.level,
-        &r.agg,
-        r.wall_s,
-        violations,
-        m.rule,
-        rvs,
-        assumptions,
-        extra,
-    );
-    println!(
-        "{id} [{tier}] runs={} (corpus {}, grid {}) nontrivial={} distinct_interleavings={} steps={} virtual_ms={} wall={:.1}s -> {}",
-        r.agg.runs,
-        r.agg.corpus_runs,
-        r.agg.grid_runs,
-        r.agg.nontrivial_runs,
-        r.agg.ileave.len(),
-        r.agg.steps,
-        r.agg.virtual_ms,
-        r.wall_s,
-        if code == 0 { "held" } else { "VIOLATED" }
-    );
-    code
-}
-
 fn replay(path: &str, quiet: bool) -> i32 {
     let txt = match std::fs::read_to_string(path) {
         Ok(t) => t,
@@ -240,34 +127,6 @@ fn replay(path: &str, quiet: bool) -> i32 {
         }
         other => {
             eprintln!("harness error: unknown harness {other:?} in replay file");
-            2
-        }
-    }
-}
-
-fn do_replay<H: Harness>(h: &H, rf: &ReplayFile<H::Sc>, path: &str, quiet: bool) -> i32 {
-    match replay_file(h, rf, true) {
-        ReplayVerdict::Reproduced(v, trace) => {
-            if !quiet {
-                for l in &trace {
-                    println!("{l}");
-                }
-            }
-            println!("violation: {} [{}] {}", v.property, v.clause, v.detail);
-            println!("VIOLATION property={} replay={}", v.property, path);
-            1
-        }
-        ReplayVerdict::NoViolation(trace) => {
-            if !quiet {
-                for l in &trace {
-                    println!("{l}");
-                }
-            }
-            println!("replay of {path}: no violation on this tree");
-            0
-        }
-        ReplayVerdict::Nondeterministic(e) => {
-            eprintln!("harness error: {e}");
             2
         }
     }
